@@ -360,16 +360,16 @@ func c10Setup() *c10Env {
 }
 
 type c10Trans struct {
-	bmsgs      []string
-	beof       bool
-	bmd        map[string][]string
-	cmsgs      []string
-	code       int
-	msg        string
-	det        string
-	hdr, trl   map[string][]string
-	flag       string
-	noTrl      bool
+	bmsgs    []string
+	beof     bool
+	bmd      map[string][]string
+	cmsgs    []string
+	code     int
+	msg      string
+	det      string
+	hdr, trl map[string][]string
+	flag     string
+	noTrl    bool
 }
 
 func c10HexList(ss []string) string {
